@@ -37,6 +37,7 @@ THEOREMS = [
     "Klong.C14.answer_is_own",
     "Klong.C14.answer_at_most_once",
     "Klong.C14.delivered_only_by_recv",
+    "Klong.C14.request_written_once",
     "Klong.C14.no_stuck_waiter",
     "Klong.C14.no_stuck_waiter_decidable",
     "Klong.C14.fixed_cleanup_never_crashes",
@@ -52,6 +53,7 @@ THEOREMS = [
     "Klong.C14.pinned_no_stuck_waiter_fails",
 ]
 
+CALLS = ("call", "bigcall", "hugecall")     # plain / 70 000 / 300 000 character request payload
 VALUES = ["a0", "a1", "a2", "dup", "push", "boom",     # bodies; "boom" fails when evaluated locally
           "x" * 65537, "y" * 200000, "z" * 65000]       # pickled: > 64 KiB, ~200 KB, just under 64 KiB
 FAIL = [5]
@@ -111,6 +113,8 @@ def run_case(ctx, drv, case, variant, record=None):
                             raw=c.result, answers=[show_bytes(b) for b in c.answers],
                             must_ok=show_bytes(c.must_ok) if c.must_ok is not None else None))
         spin = h.spin
+        wire_probs = h.wire_problems()
+        extra_writes = h.extra_writes
         crash = None
         if h.run_task.done() and not h.run_task.cancelled() and h.run_task.exception() is not None:
             e = h.run_task.exception()
@@ -138,12 +142,12 @@ def run_case(ctx, drv, case, variant, record=None):
             continue
         if o == "abort":
             ctx.mismatch("harness teardown reached a live caller", case, "finished", "aborted")
-        if o.startswith("ok:") and r["kind"] == "call":
+        if o.startswith("ok:") and r["kind"] in CALLS:
             if not r["answers"] or o[3:] != r["answers"][0]:
                 ctx.oracle_fail("c14:wrong-answer", case,
                                 f"first frame fed with id {r['k']}: {r['answers'][:1]}", o,
                                 "a call returned a value that is not the first response to its own request")
-        if o.startswith("ok:") and r["kind"] != "call" and close_show not in r["answers"]:
+        if o.startswith("ok:") and r["kind"] not in CALLS and close_show not in r["answers"]:
             ctx.oracle_fail("c14:close-without-ack", case, "close() returns only after its ack", observed)
         if r["must_ok"] is not None and o != "ok:" + r["must_ok"]:
             ctx.oracle_fail("c14:answered-call-failed", case, "ok:" + r["must_ok"], o,
@@ -159,6 +163,12 @@ def run_case(ctx, drv, case, variant, record=None):
         ctx.oracle_fail("c14:listener-crash", case, "the listener leaves through its cleanup and signals its exit",
                         dict(crash=crash, observed=observed),
                         "_run died inside finally: remaining futures are never failed, _run_exit_event never set")
+    if wire_probs:
+        ctx.oracle_fail("c14:wire-garbled", case,
+                        "the bytes the server sees parse as exactly the request frames that were sent",
+                        dict(problems=wire_probs[:6], wire=final.get("wire"), observed=observed),
+                        "request frames of concurrent callers are interleaved on the connection: the server cannot "
+                        "decode them, so the calls cannot get the answers to their own requests")
     if spin:
         ctx.oracle_fail("c14:listener-spin", case, "the listener leaves when its stream is dead",
                         observed, "the listener keeps reading a dead stream: pending calls are never failed")
@@ -183,7 +193,9 @@ def run_case(ctx, drv, case, variant, record=None):
                 f = fields(replies[idx])
                 model = dict(lst=f.get("lst"), writer=f.get("writer"), running=f.get("running"),
                              pending=f.get("pending", ""), calls=_model_calls(f.get("calls", "")),
-                             blocked=f.get("blocked"))
+                             blocked=f.get("blocked"), wire=f.get("wire", ""))
+                if dg.get("wire") is None:          # broken writer: frames may be cut short
+                    model["wire"] = None
                 if model != dg or f.get("idle") != "1":
                     ctx.mismatch("Klong.C14 digest vs NetworkClient at an idle point", case,
                                  dict(model=model, idle=f.get("idle")), dict(impl=dg, after_labels=labels[:idx][-30:]))
@@ -439,6 +451,43 @@ def gen_large(rng, thorough):
             yield dict(kind="large-whole", callers=["call"] * n, stream=stream, sched=sched)
 
 
+def gen_backpressure(rng, count):
+    """large requests while the transport applies back-pressure (`drain()` really suspends):
+    other callers send on the same connection during the suspension; answers in any order;
+    losses during the suspension"""
+    for _ in range(count):
+        n = rng.randrange(2, 4)
+        kinds = [rng.choice(["call", "call", "bigcall", "hugecall"]) for _ in range(n)]
+        if not any(k != "call" for k in kinds):
+            kinds[rng.randrange(n)] = rng.choice(["bigcall", "hugecall"])
+        order = list(range(n))
+        rng.shuffle(order)
+        stream = [[k, k] for k in order if rng.random() < 0.85]
+        _, total = stream_layout(stream)
+        sched = []
+        early = [k for k in range(n) if rng.random() < 0.25]
+        sched += bring_to([4 if k in early else 0 for k in range(n)])
+        sched.append(["CONGEST"])
+        rest = [k for k in range(n) if k not in early]
+        rng.shuffle(rest)
+        if rng.random() < 0.5:
+            for k in rest:                       # one after the other, loop stepped in between
+                sched += [["K", k]] * 3 + [["IO"]] * rng.randrange(1, 4)
+        else:
+            sched += interleave(rng, [[["K", k]] * 3 + [["IO"]] for k in rest])
+            sched += [["IO"]] * rng.randrange(0, 3)
+        r = rng.random()
+        if r < 0.15:
+            sched += [rng.choice([["EOF"], ["RESET"]]), ["IOS"]]
+        elif r < 0.25:
+            sched += [["BREAKW"], ["IOS"]]
+        sched += [["UNCONGEST"], ["IOS"]]
+        if stream:
+            p = rng.choice(cut_classes(stream))
+            sched += [["F", 0, p], ["IO"], ["F", p, total], ["IOS"]]
+        yield dict(kind="backpressure", callers=kinds, stream=stream, sched=sched)
+
+
 def gen_after_gone(rng, count):
     """calls made after the connection has gone"""
     for _ in range(count):
@@ -609,6 +658,7 @@ def run(ctx):
             kernel_trace_obligation(ctx, variant, rec[0])
         gens = [
             gen_orders(ctx.rng, not quick),
+            gen_backpressure(ctx.rng, 60 if quick else 600),
             gen_large(ctx.rng, not quick),
             gen_loss(ctx.rng, not quick, 80),
             gen_race(ctx.rng, not quick, 100),
